@@ -129,6 +129,27 @@ CHECKS = {
         "Relaxed/Newton-updated feedback values are a named deviation of the trace spec (only forward wires are exact there); non-convergent combinations are inconclusive, not violations. " + TRUSTED,
         "5 C12, 3.4, 4.2",
     ),
+    "C01": (
+        "exploration",
+        "OASConfig (TLC decides admissibility of configuration x regime records; covering sample) + entry-by-entry comparison of every component's reported sub-Jacobians with numerical differentiation of its own compute (complex step where trustworthy, Richardson FD otherwise), at two points of one live model",
+        "A covering sample of admissible records (every field value and eleven field pairs of the spec's space: model kind, symmetry/side, ground plane, area type, reference axis, drag options, laminar class, tube/wingbox, load options, taper=1, zero twist, Mach below/above critical) is built as real models; for all 76 component classes inside them (plus stand-alone atmosphere, monotonic constraint, multi-section, MPhys, energy components) the Jacobian the framework receives through the declared sparsity pattern is compared entry by entry with the derivative of the component's own compute; the second linearisation after moving the live model checks for stale or accumulated non-zeros.",
+        "Sampled real inputs (exploration); the reference can never be looser than max(2e-5, 5 x measured FD uncertainty); blocks declared fd/cs by the component are skipped; non-smooth points avoided (CL > 0.05, Mach away from critical, non-zero displacements). Fixed: F2 (Taper at taper=1), F9 (ViscousDrag d/dre at k_lam=1). " + TRUSTED,
+        "5 C01, 3.1, 3.6",
+    ),
+    "C02": (
+        "exploration",
+        "OASConfig covering sample + OASAdjoint (TLC: transposed solve or measured symmetry for every implicit component, both modes for matrix-free ones) + totals in fwd/rev with Direct, LinearBlockGS, ScipyKrylov vs each other and vs Richardson FD of the converged analysis along random directions",
+        "Each sampled topology/option record (aero, struct, aerostruct, multipoint; 1-2 surfaces; compressible, ground, viscous/wave, weight relief, fuel, point masses, tube/wingbox) is built in forward and reverse mode with the three linear solvers; all total Jacobians of CL, CD, CM, fuel burn, failure, lift-equals-weight, structural mass w.r.t. every design variable and flight condition must agree pairwise and with the directional derivative of run_model; the symmetry of the assembled stiffness matrix that the FEM's single factorization relies on is measured (6e-17) and fed to the spec.",
+        "Iterative solvers are judged converged by the Cauchy criterion (totals after 150 and 300 iterations agree); otherwise the combination is inconclusive (the documentation says they are not guaranteed to find the solution). Wingbox at exactly zero section twist is excluded: the analysis itself has a kink there (arccos). " + TRUSTED,
+        "5 C02",
+    ),
+    "C18": (
+        "exploration",
+        "OASMonotone (TLC enumerates every chain of the parameter lattice) + TraceMonotone validation of the recorded signs of every step walked on the real VLMGeometry/ViscousDrag/WaveDrag; off => exactly 0; onset smoothness",
+        "Every chain of single-parameter moves (Reynolds number, thickness ratio, Mach, CL, laminar fraction, sweep, nx, ny) up to depth 3/4 is walked from the bottom of the lattice and from random interior points on a constant-chord untwisted wing; the sign of the change of CDv and CDw at each step is recorded and the trace validated by TLC against the direction table (CDv decreases with Re and increases with t/c and is positive; CDw never decreases with Mach or CL; both unchanged under nx/ny refinement); options off give exactly zero; CDw is zero up to the crest-critical Mach number and starts with zero value and slope.",
+        "The formulas are empirical and stay in the code: the spec contributes order structure, exhaustive traversal and the acceptance predicate (exploration level). " + TRUSTED,
+        "5 C18",
+    ),
 }
 PENDING = {}
 
@@ -176,7 +197,7 @@ def main():
         ],
         "checks": checks,
         "not_applicable": na,
-        "notes": "fix: commits in /repo: 82a326b (MomentCoefficient M blocks), d58e861 (stale caches after check_partials). See known_findings.json and DESIGN.md section 6.",
+        "notes": "fix: commits in /repo: 82a326b, d58e861 (C03), 6f55fa9 (C06), aa07cb3 (C17), 97ec321, c6862e9 (C01). Known findings F3-F7, F11 in known_findings.json. See DESIGN.md section 6.",
     }
     with open(os.path.join(HERE, "MANIFEST.json"), "w") as f:
         json.dump(m, f, indent=1)
